@@ -20,8 +20,16 @@
 (*   Root   get_best_move_entry: best starts at -INF, window (-INF, -best) *)
 (*          for the first three moves, then probe (-best-1, -best) and     *)
 (*          re-search (-INF, -score)                                       *)
-(* (Mate / stalemate terminals and the table are left out: RefSearch.tla   *)
-(* covers the leaf rule on real trees; this module covers the windows.)    *)
+(*   Term   get_best_move_score with no legal move (remaining depth >= 2):  *)
+(*          0 (stalemate) or the mate score, returned WITHOUT looking at    *)
+(*          the window - the one place where the search is fail-soft.       *)
+(*          Shapes "3xT" and "1x4xT" put such terminals among the children  *)
+(*          of the root and of an interior PVS node; there the interior     *)
+(*          contract weakens to InvNodeT (same clamped value, never below   *)
+(*          alpha) while the root value stays exact.                        *)
+(* (The table is left out here - PvsTable.tla; quiescence / depth-1 nodes   *)
+(* with no pseudo-move at all are window-dependent by construction and     *)
+(* are excluded by the property; RefSearch.tla has the leaf rule itself.)  *)
 (***************************************************************************)
 EXTENDS Integers, Sequences, FiniteSets, TLC
 
@@ -36,12 +44,17 @@ Clamp(x, a, b) == IF x <= a THEN a ELSE IF x >= b THEN b ELSE x
 \* representation: a leaf is [v |-> value], an interior node [ch |-> <<subtrees>>]
 L(x) == [v |-> x]
 N(seq) == [ch |-> seq]
+T(x) == [tv |-> x]                  \* a node with no legal move: x = 0 (stalemate) or -MATE (mated)
+MATE == 90
+Terms == { T(0), T(0 - MATE) }
 IsLeaf(t) == "v" \in DOMAIN t
+IsTerm(t) == "tv" \in DOMAIN t
 Kids(t) == t.ch
 
 RECURSIVE Negamax(_)
 Negamax(t) ==
   IF IsLeaf(t) THEN t.v
+  ELSE IF IsTerm(t) THEN t.tv
   ELSE LET vals == { 0 - Negamax(Kids(t)[i]) : i \in DOMAIN Kids(t) } IN CHOOSE x \in vals : \A y \in vals : y <= x
 
 \* quiescence on a quiet leaf
@@ -57,8 +70,9 @@ D1Loop(t, i, a, b) ==
        IN IF a2 >= b THEN a2 ELSE D1Loop(t, i + 1, a2, b)
 D1(t, a, b) == D1Loop(t, 1, a, b)
 
-AllLeaves(t) == \A i \in DOMAIN Kids(t) : IsLeaf(Kids(t)[i])
+AllLeaves(t) == ~IsTerm(t) /\ \A i \in DOMAIN Kids(t) : IsLeaf(Kids(t)[i])
 Child(t, a, b) == IF IsLeaf(t) THEN Leaf(t.v, a, b)
+                  ELSE IF IsTerm(t) THEN t.tv          \* window ignored
                   ELSE IF AllLeaves(t) THEN D1(t, a, b)
                   ELSE Node(t, a, b)
 
@@ -98,6 +112,13 @@ Trees ==
     [] Shape = "2x4"    -> { N(q) : q \in [1..2 -> D1Nodes(4)] }
     [] Shape = "1x4x2"  -> { N(<< N(q) >>) : q \in [1..4 -> D1Nodes(2)] }      \* an interior PVS node with four children
     [] Shape = "2x4x1"  -> { N(q) : q \in [1..2 -> { N(r) : r \in [1..4 -> D1Nodes(1)] }] }
+    \* depth 3: the root over three children, each a terminal or a PVS node over two depth-1 nodes of one leaf
+    [] Shape = "3xT"    -> { N(q) : q \in [1..3 -> Terms \cup { N(r) : r \in [1..2 -> D1Nodes(1)] }] }
+    \* depth 4: an interior PVS node with four children (probe / re-search reached), each a terminal or a node over one depth-1 node
+    [] Shape = "1x4xT"  -> { N(<< N(q) >>) : q \in [1..4 -> Terms \cup { N(<< d >>) : d \in D1Nodes(1) }] }
+    [] Shape = "5xT"    -> { N(q) : q \in [1..5 -> Terms \cup { N(<< d >>) : d \in D1Nodes(1) }] }
+WB == V \cup {0 - INF, INF, 0 - MATE, MATE, 1 - MATE, MATE - 1}
+WindowsT == { x \in WB \X WB : x[1] < x[2] }
 Windows == { w \in (V \cup {0 - INF, INF}) \X (V \cup {0 - INF, INF}) : w[1] < w[2] }
 
 VARIABLES t, w
@@ -107,5 +128,9 @@ Spec == Init /\ [][Next]_<<t, w>>
 
 InvRoot == Root(t) = Negamax(t)
 InvNode == ~AllLeaves(t) => Node(t, w[1], w[2]) = Clamp(Negamax(t), w[1], w[2])
+\* with terminals below: the interior node is fail-soft upwards only, and agrees with negamax after clamping
+InvNodeT == \A x \in WindowsT :
+              LET r == Node(t, x[1], x[2]) IN r >= x[1] /\ Clamp(r, x[1], x[2]) = Clamp(Negamax(t), x[1], x[2])
+\* coverage witnesses (checked as invariants that must FAIL would be wrong; used via ASSUME-free counting in the cfg comments)
 InvD1 == AllLeaves(t) => D1(t, w[1], w[2]) = Clamp(Negamax(t), w[1], w[2])
 =============================================================================
